@@ -125,6 +125,15 @@ def _impl(tier, seed, search):
         observe('display', f'trprint2(T{k_})', lambda T_: b.trprint2(T_, file=None), [Tn.copy()], sig='mutates:trprint2'); observe('display', f'trprint2(T{k_},rad)', lambda T_: b.trprint2(T_, file=None, unit='rad'), [Tn.copy()], sig='mutates:trprint2')
         Xn = SE2(Tn.copy(), check=False)
         observe('display', f'SE2.printline({k_})', lambda X_: X_.printline(file=None), [Xn], sig='mutates:SE2.printline'); observe('display', f'SE2.__str__({k_})', lambda X_: str(X_), [Xn], sig='mutates:SE2.__str__')
+    # interpolation between fixed pairs on opposite hemispheres (negative inner product), every entry point and option: operands untouched
+    for k_, (qa_, qb_) in enumerate(((UnitQuaternion.Rx(0.3), UnitQuaternion.Rx(6.0)), (UnitQuaternion.RPY([0.2, -0.4, 3.0]), UnitQuaternion.RPY([-0.3, 0.5, -2.9])), (UnitQuaternion([0.6, 0.0, 0.8, 0.0]), UnitQuaternion([-0.6, 0.1, -0.79, 0.0])))):
+        for sh_ in (True, False):
+            for s_ in (0.5, 0.25, [0.2, 0.7]):
+                observe('interp(opposite hemispheres)', f'UQ.interp(s={s_},dest,shortest={sh_})[{k_}]', lambda a_, b_: a_.interp(s_, dest=b_, shortest=sh_), [copy.deepcopy(qa_), copy.deepcopy(qb_)], sig='mutates:UnitQuaternion.interp')
+            observe('interp(opposite hemispheres)', f'slerp(shortest={sh_})[{k_}]', lambda a_, b_: b.slerp(a_, b_, 0.5, shortest=sh_), [qa_.vec.copy(), qb_.vec.copy()], sig='mutates:slerp')
+        observe('interp(opposite hemispheres)', f'trinterp(R)[{k_}]', lambda a_, b_: b.trinterp(a_, b_, 0.5), [qa_.R.copy(), qb_.R.copy()], sig='mutates:trinterp')
+        observe('interp(opposite hemispheres)', f'SO3.interp[{k_}]', lambda a_, b_: b_.interp(0.5, start=a_), [SO3(qa_.R), SO3(qb_.R)], sig='mutates:SO3.interp')
+        observe('interp(opposite hemispheres)', f'SE3.interp[{k_}]', lambda a_, b_: b_.interp(0.5, start=a_), [SE3(b.r2t(qa_.R)), SE3(b.r2t(qb_.R))], sig='mutates:SE3.interp')
     # constructors from lists of arrays / objects: the list and its elements stay untouched
     for cname, cls, mk in (('SO3', SO3, lambda: inputs.so3(g)), ('SE3', SE3, lambda: inputs.se3(g, 1)), ('SO2', SO2, lambda: inputs.so2(g)), ('SE2', SE2, lambda: inputs.se2(g, 1)),
                            ('UnitQuaternion', UnitQuaternion, lambda: inputs.unitq(g)), ('Quaternion', Quaternion, lambda: g.normal(size=4)), ('Twist3', Twist3, lambda: g.normal(size=6)), ('Twist2', Twist2, lambda: g.normal(size=3))):
